@@ -210,14 +210,13 @@ def twins_oracle(rng):
     except Exception as e:
         fails.append(rep(kind, "set_params(get_params)-raises", {"error": f"{type(e).__name__}: {str(e)[:80]}"}))
     # twins: a.set_params(rho=rho2) behaves like b constructed with rho2
+    def attempt(e):
+        try:
+            return train(e), None
+        except Exception as ex:          # whether training is total is C04's / C17's business, not the protocol's
+            return None, type(ex).__name__
     try:
         a.set_params(**{key: rho2})
-
-        def attempt(e):
-            try:
-                return train(e), None
-            except Exception as ex:          # whether training is total is C04's / C17's business, not the protocol's
-                return None, type(ex).__name__
         (ra, ea), (rb, eb) = attempt(a), attempt(b)
         if ea != eb:
             fails.append(rep(kind, "set_params-twin-differs-from-constructed", {"key": key, "twin": ea, "constructed": eb}))
@@ -243,6 +242,34 @@ def twins_oracle(rng):
                     fails.append(rep(kind, "training-changed-the-parameters", {"paths": diff[:4]}))
     except Exception as e:
         fails.append(rep(kind, "twin-raises", {"error": f"{type(e).__name__}: {str(e)[:80]}"}))
+    # the same on an estimator that has a training history already (a grid search without clone, a model re-tuned in place):
+    # fitted at a fine vigilance, then given the new value, a fit behaves like the fit of one constructed with it
+    try:
+        with contextlib.redirect_stdout(io.StringIO()):
+            a4, b4 = mk(0.875), mk(rho2)
+        (r4, e4) = attempt(a4)
+        # (where set_params does not even reach an unfitted estimator, that is the failure reported above - nothing to add)
+        if e4 is None and not any(f["text"] == "set_params-twin-differs-from-constructed" for f in fails):
+            a4.set_params(**{key: rho2})
+            (r4, e4), (rb4, eb4) = attempt(a4), attempt(b4)
+            if e4 != eb4:
+                fails.append(rep(kind, "set_params-on-a-fitted-estimator-differs-from-constructed", {"key": key, "fitted first at": 0.875, "twin": e4, "constructed": eb4}))
+            elif e4 is None and labels(a4) != labels(b4):
+                fails.append(rep(kind, "set_params-on-a-fitted-estimator-differs-from-constructed",
+                                 {"key": key, "fitted first at": 0.875, "twin": repr(labels(a4))[:200], "constructed": repr(labels(b4))[:200]}))
+            elif e4 is None and kind in ("Fuzzy", "Hyper", "ART2A", "DualVig", "Topo", "Fusion", "CVIART", "iCVIFuzzy"):
+                Xq = np.hstack([X, X]) if kind == "Fusion" else X
+                with contextlib.redirect_stdout(io.StringIO()), np.errstate(all="ignore"):
+                    pa4, pb4 = [int(v) for v in a4.predict(Xq)], [int(v) for v in b4.predict(Xq)]
+                extra = {}
+                if kind == "DualVig":
+                    extra = {"twin map": repr(dict(a4.map)), "constructed map": repr(dict(b4.map))} if dict(a4.map) != dict(b4.map) else {}
+                if pa4 != pb4 or extra or int(a4.n_clusters) != int(b4.n_clusters):
+                    fails.append(rep(kind, "set_params-on-a-fitted-estimator-differs-from-constructed",
+                                     dict({"key": key, "fitted first at": 0.875, "twin predict": pa4, "constructed predict": pb4,
+                                           "n_clusters": [int(a4.n_clusters), int(b4.n_clusters)]}, **extra)))
+    except Exception as e:
+        fails.append(rep(kind, "fitted-twin-raises", {"error": f"{type(e).__name__}: {str(e)[:80]}"}))
     # the estimator's OWN hyper-parameters (not routed to a nested module): value visible through get_params and
     # attribute access, and the estimator then behaves like one constructed with it
     own = {"Fuzzy": ("beta", 0.5, lambda: artlib.FuzzyART(rho2, 1e-3, 0.5)),
